@@ -348,3 +348,7 @@ def _whole_copies():
 from pyvc.contract import Lemma as _Lemma  # noqa: E402
 
 LEMMAS = list(globals().get("LEMMAS", [])) + [_Lemma("utf8-repeat-whole-copies", _whole_copies, "arithmetic of utf8_repeat_string's multiplier")]
+
+from contracts import c01 as _c01sc  # noqa: E402
+
+CONTRACTS += [c for c in _c01sc.CONTRACTS if c.id.startswith("safe_crypt[")]  # undecodable bytes -> None -> the built-in implementation takes over
